@@ -125,6 +125,14 @@ type fdSide struct {
 	noTableAt map[token.Pos]bool
 	// findings of the walk that are reported in their own words (rules_t8c10.go)
 	notes []fdNote
+	// fork: package-level tables decided to be memo tables of pure functions (rules_t8c10_memo.go);
+	// the `ok` results of their lookups (read as false) and the results of LoadOrStore (read as the
+	// value offered) — see fdMemoReads
+	memo      map[types.Object]bool
+	falseObjs map[types.Object]bool
+	memoVals  map[types.Object]ast.Expr
+	// fork: functions of the package decided to be pure on the SSA (rules_t8c10_memo.go)
+	pureFuncs map[types.Object]bool
 }
 
 // fdSingleDefs finds the locals of fd that are defined exactly once by a 1:1
@@ -463,8 +471,14 @@ func (c *fdCtx) ident(id *ast.Ident) string {
 	if o == nil {
 		return id.Name
 	}
-	if c.s.laxObjs[o] {
+	if c.s.laxObjs[o] || c.s.falseObjs[o] {
 		return "false"
+	}
+	if v, ok := c.s.memoVals[o]; ok && !c.busy[o] {
+		c.busy[o] = true
+		s := c.expr(v)
+		delete(c.busy, o)
+		return s
 	}
 	if a, ok := c.bind[o]; ok {
 		saved := c.bind
@@ -676,6 +690,9 @@ func (c *fdCtx) expr(e ast.Expr) string {
 		}
 		return c.expr(e.Fun) + "(" + c.exprs(args) + ")"
 	case *ast.IndexExpr:
+		if s, ok := c.tabElem(e); ok {
+			return s // an element of a slice filled by tabulation: the function tabulated (rules_t8c10.go)
+		}
 		return c.expr(e.X) + "[" + c.expr(e.Index) + "]"
 	case *ast.SliceExpr:
 		low := c.expr(e.Low)
@@ -690,6 +707,9 @@ func (c *fdCtx) expr(e ast.Expr) string {
 	case *ast.TypeAssertExpr:
 		if e.Type == nil {
 			return c.expr(e.X) + ".(type)"
+		}
+		if v := c.memoValOf(e); v != nil {
+			return c.expr(v) // the value offered to the table, asserted to its own type
 		}
 		return c.expr(e.X) + ".(" + c.typeExpr(e.Type) + ")"
 	case *ast.CompositeLit:
@@ -973,6 +993,8 @@ type fdWalker struct {
 	errUnread map[types.Object]bool
 	// runs with gotos / labels that prepare found to be decision tables: first statement -> length (rules_t6c10.go)
 	gotoRuns map[token.Pos]int
+	// slices filled by tabulation (rules_t8c10.go)
+	tabs *fdTabs
 }
 
 var fdTmpLocal = regexp.MustCompile("\x00[0-9]+\x00")
@@ -1442,6 +1464,10 @@ func (w *fdWalker) stmts(list []ast.Stmt, chain []fdCond) bool {
 		if w.neutralExit(list, i) {
 			continue
 		}
+		// the fill of a slice that is read as the function it tabulates (rules_t8c10.go)
+		if w.findTabs().skip[st] {
+			continue
+		}
 		w.errTemp(list, i)
 		dead, guards := w.stmt(st, chain)
 		if dead {
@@ -1645,6 +1671,9 @@ func (w *fdWalker) stmtN(st ast.Stmt, chain []fdCond) (dead bool, guards []fdCon
 		w.facts = fdJoinAll(outs)
 	case *ast.RangeStmt:
 		if f := w.rangeIntAsFor(s); f != nil {
+			return w.stmtN(f, chain)
+		}
+		if f := w.rangeTabAsFor(s); f != nil {
 			return w.stmtN(f, chain)
 		}
 		if f := w.rangeSliceAsFor(s); f != nil {
@@ -2091,8 +2120,8 @@ type fdResult struct {
 }
 
 // ForkDiff compares the fork package with the upstream package.
-func ForkDiff(fork, up *packages.Package, files map[string]bool, laxObjs map[types.Object]bool) *fdResult {
-	fs := &fdSide{fork: true, pkg: fork, funcs: fdCollectFuncs(fork, files), laxObjs: laxObjs, dropArgs: map[types.Object]map[int]bool{}, onlyHere: map[types.Object]bool{}}
+func ForkDiff(fork, up *packages.Package, files map[string]bool, laxObjs map[types.Object]bool, memo, pure map[types.Object]bool) *fdResult {
+	fs := &fdSide{fork: true, pkg: fork, funcs: fdCollectFuncs(fork, files), laxObjs: laxObjs, memo: memo, pureFuncs: pure, dropArgs: map[types.Object]map[int]bool{}, onlyHere: map[types.Object]bool{}}
 	us := &fdSide{pkg: up, funcs: fdCollectFuncs(up, files), dropArgs: map[types.Object]map[int]bool{}, onlyHere: map[types.Object]bool{}}
 	fs.extraFields, us.extraFields = fdExtraFields(fork, up), fdExtraFields(up, fork)
 	for o := range laxObjs { // the lax field itself is an extra field by construction; assert it
@@ -2101,6 +2130,7 @@ func ForkDiff(fork, up *packages.Package, files map[string]bool, laxObjs map[typ
 		}
 	}
 	res := &fdResult{}
+	fdMemoReads(fs)
 	fs.rename = fdMatchPkgVars(fs, us)
 	res.Renamed = map[string]string{}
 	for o, n := range fs.rename {
